@@ -198,8 +198,7 @@ def check_property(prop, tier='quick', seed=0, write_lock=False, only=None):
                     confirmed = (o['witness']['inputs'], c, 'solver counter-model')
             if confirmed is None and (oid in locked or o['refuted']):
                 # numeric falsification inside the precondition, around the witness and at random
-                names = list(r['covers'][0]['inputs'].keys()) if r['covers'] and r['covers'][0].get('inputs') else \
-                    (list(o['witness']['inputs'].keys()) if o['witness'] and o['witness'].get('inputs') else [])
+                names = list(r.get('input_names') or [])
                 names = [n for n in names if n != '__pi__']
                 jobs = []
                 base = o['witness']['inputs'] if (o['witness'] and o['witness'].get('inputs')) else None
